@@ -382,6 +382,8 @@ def check_c16(run):
 
 @check("C06", "model_checking")
 def check_c06(run):
+    # coordinate type != data type, other orderings, target/source trees (construction and rebuild)
+    matrix_run(run, REBUILD_CELLS + [dict(DIMV=3, REAL_T="double", DATA_T="float", ORDERV=0, AUTOBS=1, REBUILDV=0, EXECV=2)], 30 if run.tier == "quick" else 150, ["DataBitExact", "StoredOnce", "InRightLeaf"])
     run_fmm_configs(run, "C06", tree_configs(run.tier), module="BlockTreeMC", shards=8, workers=1, parallel=2)
     # execution never alters symbolic data: all histories, all executors covered by the Fmm campaigns
     run_fmm_configs(run, "C06", std_configs(run.tier, hists=("full", "stages3"), small=True)
@@ -485,7 +487,7 @@ def check_c13(run):
 
 @check("C18", "model_checking")
 def check_c18(run):
-    cs = std_configs(run.tier, hists=("full", "stages3"), stops=(0, 2, 3), small=True)
+    cs = std_configs(run.tier, hists=("full", "stages3", "uponly", "m2lafterup", "p2ponly"), stops=(0, 2, 3), small=True)
     cs.append(("1d-h5-multi", fmm_constants(1, 5, POOL_1D_H5[:5], maxper=3, maxparts=8, bss=(1, 2, 20))))
     run_fmm_configs(run, "C18", cs)
     # per-worker copies under task schedules: merged counters must equal the sequential count, each copy used by one worker only
